@@ -77,6 +77,13 @@ JCanon(case) ==
   \A ci \in 1..Len(case.calls) :
     LET call == case.calls[ci] IN
       /\ Ok(call) /\ \A i \in 1..Len(call.res) : call.canon[i] /\ ~call.aux[i]
+      \* the set as the API presents it (sizes of the set and of its two projections read through the set's own
+      \* methods, which use the variable lists the set carries) is the set its BDD denotes in the canonical encoding
+      /\ ("api_read" \in DOMAIN call =>
+            \A i \in 1..Len(call.res) :
+              call.api_read[i] = << Cardinality(Res(call, i)),
+                                    Cardinality({x \div W0 : x \in Res(call, i)}),
+                                    Cardinality({x % W0 : x \in Res(call, i)}) >>)
       \* sanitize_colors / sanitize_vertices on the projections of a raw result: the projections, canonically encoded
       /\ ("san_colors" \in DOMAIN call =>
             /\ call.san_proj_ok
